@@ -368,4 +368,6 @@ def run(ctx, progs):
         r2_handout(ctx, P, D)
         r3_in_place_gated(ctx, P, D)
         r4_slow_path(ctx, P, D)
+        from . import c15
+        c15.r4_commit_forms(ctx, P, D, R="C01.R5")
     ctx.config = None
